@@ -12,6 +12,8 @@ pub(crate) use self::peer::{Dyn as DynPeer, Peer};
 pub(crate) use self::ping_pong::UserPings;
 pub(crate) use self::streams::{DynStreams, OpaqueStreamRef, StreamRef, Streams};
 pub(crate) use self::streams::{Open, PollReset, Prioritized};
+#[cfg(feature = "verif-hooks")]
+pub use self::streams::{VerifError, VerifState};
 
 use crate::codec::Codec;
 
